@@ -314,7 +314,8 @@ def run_join(eng, p):
                 self.features.append("time")     # ancillary: frame / rate
                 self.features_loaded.append("time")   # (a "rapid" one)
             self.features += list(src.comp)      # computed on demand only
-            self.logs = {"log": ["line-of-%d" % src.k]}
+            self.logs = {"log": ["line-of-%d" % src.k],
+                         "dclab-split": ["job-of-%d" % src.k]}
             self.tables = {}
             self.export = Export(src)
             rec["opened"].append(src.k)
@@ -493,9 +494,10 @@ def run_join(eng, p):
                       "join: feature data of the right source")
     for k in range(n):
         i = seq.index(k) + 1 if k in seq else None
-        eng.prove(z3.BoolVal(i is not None and
-                             ("src-#%d_log" % i in rec["logs"] or i == 1)),
-                  "join: logs of every source retained")
+        eng.prove(z3.BoolVal(i is not None and all(
+            "src-#%d_%s" % (i, ln) in rec["logs"] or i == 1
+            for ln in ("log", "dclab-split"))),
+            "join: logs of every source retained")
     return seq
 
 
@@ -635,6 +637,20 @@ def replay(case, params, v):
                     common_f = [f for f in UNIVERSE
                                 if f in first["feats"] and
                                 all(avail(s, f) for s in srcs)]
+                    for pos, k in enumerate(exp_order):
+                        for ln, txt in (("log", "line-of-%d" % k),
+                                        ("dclab-split", "job-of-%d" % k)):
+                            nm = "src-#%d_%s" % (pos + 1, ln)
+                            got = [x.decode() if isinstance(x, bytes) else x
+                                   for x in h["logs"][nm][:]] \
+                                if "logs" in h and nm in h["logs"] else None
+                            if got != [txt]:
+                                fails.append(
+                                    "log %r of input %d (position %d) is %r "
+                                    "in the joined file, expected %r" % (
+                                        ln, k, pos + 1, got, [txt]))
+                    if fails:
+                        return _res(fails, "join|logs-not-retained")
                     stored = sorted(f for f in ev if f in UNIVERSE)
                     if stored != sorted(common_f):
                         fails.append("stored features %r != features "
@@ -714,6 +730,7 @@ def _write(path, N, k, date, tm, feats, run=1):
                           "chip region": "channel", "medium": "other"}}
         hw.store_metadata(meta)
         hw.store_log("log", ["line-of-%d" % k])
+        hw.store_log("dclab-split", ["job-of-%d" % k])
 
 
 CANARIES = [
